@@ -10,7 +10,7 @@ for f in sorted(glob.glob('/verif/replays/%s-*.json' % p)):
 d = json.load(open('/verif/evidence/%s.json' % p))
 c = d['coverage']
 print("obligations %d/%d evaluations %d nontrivial %d wall %.1fs violations %s" % (c['discharged'], c['obligations'], c['evaluations'], c['distinct_nontrivial'], d['wall_s'], d.get('violations')))
-print("counters", c.get('counters'))
+print("counters", {k: (v if len(str(v)) < 200 else str(v)[:200] + "...") for k, v in (c.get('counters') or {}).items()})
 print("known reproduced", c.get('known_findings_reproduced'), "not reproduced", c.get('known_findings_listed_not_reproduced_this_run'))
 for o in c['obligation_list']:
     if not o['ok']:
